@@ -85,7 +85,7 @@ Promote(a, b) ==
 ArrayOps == {"anew", "anewdata", "alen", "agetitem", "agetslice", "asetitem", "asetslice", "adelitem", "adelslice",
              "aappend", "aextend", "ainsert", "apop", "areverse", "acount", "atolist", "aiter", "aequals", "acopy",
              "asetdtype", "abyteswap", "atobytes", "atofile", "atrailing", "adata", "aop", "aiop", "acmp", "abitop",
-             "aunary", "aopa", "aextendarr", "afromarray", "aitemsize", "rawcall", "ascaled", "aastype", "afromfile", "aopf", "aiopf"}
+             "aunary", "aopa", "aextendarr", "afromarray", "aitemsize", "rawcall", "ascaled", "aastype", "afromfile", "aopf", "aiopf", "aopaf"}
 
 ArrayStep(objs, opts, call) ==
   LET op == call.op
@@ -250,6 +250,24 @@ ArrayStep(objs, opts, call) ==
          ELSE IF \E i \in 1..n : ~enc[i].ok THEN Raises({"ValueError", "ZeroDivisionError"})
          ELSE IF op = "aopf" THEN OkArr(a.dn, a.dl, bits)
          ELSE [Ok(<<VArr(a.dn, a.dl, bits)>>, <<t>>, Upd(bits)) EXCEPT !.free = {"trailing"}, !.arr = <<Canon(a.dn), a.dl>>]
+    [] op = "aopaf" ->
+         \* Array op Array with at least one float-valued side: va = what Python gives for each pair of items (oracle
+         \* input, <<0>> where Python raises).  Specified: the promoted dtype (floats win over integers, then the longer
+         \* type, then the first), equal lengths required, every result encoded in the promoted dtype, one failing item
+         \* fails the whole operation.
+         LET b == objs[call.xs[1].id]
+             res == call.va
+             floaty(x) == Canon(x.dn) \in FloatNames \cup BFloatNames \cup AllMiniNames
+             pr == IF Canon(a.dn) = Canon(b.dn) THEN (IF a.dl > b.dl THEN a ELSE b)
+                   ELSE IF floaty(a) /\ ~floaty(b) THEN a
+                   ELSE IF floaty(b) /\ ~floaty(a) THEN b
+                   ELSE IF b.dl > a.dl THEN b ELSE a
+             enc == [i \in 1..n |-> IF res[i][1] = 3 THEN EncodeDtypeM(pr.dn, pr.dl, res[i], mx) ELSE Bad] IN
+         IF ~(floaty(a) \/ floaty(b)) \/ ~(floaty(a) \/ IsIntDtype(a.dn)) \/ ~(floaty(b) \/ IsIntDtype(b.dn)) THEN Unconstrained
+         ELSE IF NItems(b) # n THEN Raises(AnyDoc)
+         ELSE IF Len(res) # n \/ \E i \in 1..n : res[i][1] = 13 \/ (res[i][1] = 3 /\ IsNaN64(FloatBits(res[i]))) THEN Unconstrained
+         ELSE IF \E i \in 1..n : ~enc[i].ok THEN Raises({"ValueError"})
+         ELSE OkArr(pr.dn, pr.dl, FoldLeft(LAMBDA acc, q : acc \o q.bits, <<>>, enc))
     [] op = "aunary" ->
          LET opn == call.sa[1]
              res == [i \in 1..n |-> ApplyInt(opn, SmallOf(ItemVal(a, i - 1)), 0)]
